@@ -11,13 +11,15 @@
 (*   is skipped, every other field is collected.  Each tag processor then  *)
 (*   claims the collected fields that carry its tag.                       *)
 (* Leaves carry an identity (id) so that a shape and its flattening can be *)
-(* compared.  Tags: value / prop (recognised, bind a configuration value), *)
-(* cust (a user-supplied tag processor), foreign (unrecognised), none.     *)
+(* compared.  Tags: value / prop / prefix (bind a configuration value),     *)
+(* wire / func (inject components), logger, cust (a user-supplied tag      *)
+(* processor), foreign (unrecognised), none.                               *)
 (***************************************************************************)
 EXTENDS Integers, Sequences, FiniteSets, TLC
 
 CONSTANT Shapes        \* set of root field sequences
-Recognised == {"value", "prop", "cust"}
+\* recognised tags: configuration (value, prop, prefix), components (wire, func), the logger tag, and a user-supplied tag (cust)
+Recognised == {"value", "prop", "prefix", "wire", "func", "logger", "cust"}
 
 VARIABLES sc, work, collected, claimed, phase
 vars == <<sc, work, collected, claimed, phase>>
